@@ -899,6 +899,10 @@ def oracle_c20(r):
             out.append(('after the close request the reader / writer thread is still running (%r)' % ({k: v for k, v in r.threads.items() if k in ('reader', 'writer')},), {'kind': 'close_incomplete'}))
         if r.final['jobs'] or any(c.e is None for c in r.calls):
             out.append(('close returned while accepted worker tasks were not complete', {'kind': 'close_incomplete'}))
+        nsub = sum(1 for e in r.events if e[0] == 'submit')
+        nend = sum(1 for e in r.events if e[0] == 'job-end')
+        if nend < nsub:
+            out.append(('%d worker tasks were accepted before the close request but only %d were run to their end' % (nsub, nend), {'kind': 'close_incomplete'}))
         if r.handio or r.exits or closed_writes:
             out.append(('orderly close reported an I/O failure (handler calls %r, exits %r)' % (r.handio, r.exits), {'kind': 'close_reported'}))
         q = [x for x in r.queue_log if isinstance(x, str)]
